@@ -262,7 +262,8 @@ def kernel_inputs(P):
     K["AxisAng3"] = [(w,) for w in P.W]
     K["MatrixExp3"] = [(se3.skew(w),) for w in P.W]
     K["SafeTrace"] = [(_rot(P, w),) for w in P.Wq] + [(np.arange(12.0).reshape(3, 4),), (np.arange(16.0).reshape(4, 4),),
-                                                        (np.arange(1.0, 2.0).reshape(1, 1),), (np.arange(36.0).reshape(6, 6),)]
+                                                        (np.arange(1.0, 2.0).reshape(1, 1),), (np.arange(36.0).reshape(6, 6),),
+                                                        (np.arange(12.0).reshape(4, 3),), (np.arange(6.0).reshape(6, 1),), (np.arange(6.0).reshape(1, 6),)]
     K["SafeClip"] = [(x, -1.0, 1.0) for x in (-2.0, -1.0, -1 + 1e-16, 0.0, 0.5, 1.0, 1 + 1e-12, 3.0)] + [(2, -1, 1), (0, -1, 1), (-5, -1.0, 1.0)]
     K["MatrixLog3"] = [(_rot(P, w),) for w in P.W]
     K["RpToTrans"] = [(T[:3, :3].copy(), p.copy()) for _, p, T in P.POSES]
@@ -399,6 +400,38 @@ def sp_kernel_inputs(P):
 # --------------------------------------------------------------------------------------------------------------
 # execution of one case
 
+def tolerant_jit_cache():
+    """The on-disk JIT cache is an optimisation shared with concurrent runs, which prune old cache directories
+    (mc.env._prune) - possibly this one, in the middle of a compilation.  Numba lets the resulting OSError escape from
+    the *call* of the kernel, and the library swallows such exceptions in places (`except Exception` around SPFKinSpaceR,
+    around the IK restarts), which would turn an accident of the environment into a different result.  Saving / loading
+    a cache entry that fails on the file system is therefore treated as a cache miss; nothing about compilation or
+    execution changes."""
+    from numba.core import caching
+    if getattr(caching.Cache, "_c17_tolerant", False):
+        return
+    save0, load0 = caching.Cache.save_overload, caching.Cache.load_overload
+
+    def save_overload(self, sig, data):
+        try:
+            return save0(self, sig, data)
+        except OSError:
+            try:
+                os.makedirs(self.cache_path, exist_ok=True)
+            except OSError:
+                pass
+            return None
+
+    def load_overload(self, sig, target_context):
+        try:
+            return load0(self, sig, target_context)
+        except OSError:
+            return None
+    caching.Cache.save_overload = save_overload
+    caching.Cache.load_overload = load_overload
+    caching.Cache._c17_tolerant = True
+
+
 class Reach:
     """Interpreter mode only: which kernels does a call reach (profile hook on Python frames)."""
 
@@ -435,6 +468,8 @@ class Driver:
             self.kmods[mn] = importlib.import_module(mn)
         self.numba_err = ()
         self.rejected = {}
+        flt = os.environ.get("VERIF_C17_FILTER", "").strip()      # development aid: comma-separated case-id prefixes
+        self.prefixes = [x for x in flt.split(",") if x] or None
         self.codes = {}
         if mode == "nojit":
             for mn, fn in self.src:
@@ -444,6 +479,7 @@ class Driver:
         else:
             from numba.core import errors
             self.numba_err = (errors.NumbaError,)
+            tolerant_jit_cache()
 
     # -- output
     def emit(self, rec):
@@ -452,7 +488,15 @@ class Driver:
         self.n += 1
 
     def want(self, cid):
+        if self.prefixes and not any(cid.startswith(p) for p in self.prefixes):
+            return False
         return self.only is None or cid in self.only
+
+    def group_wanted(self, head):
+        """head = 'k|<kernel>|' or 'e|<object>|': can any wanted case start like this?"""
+        if self.only is not None and not any(c.startswith(head) for c in self.only):
+            return False
+        return not self.prefixes or any(p.startswith(head) or head.startswith(p) for p in self.prefixes)
 
     def mine(self, unit):
         """Sharding of one mode over processes: units (kernels, 'entries') are dealt out greedily by estimated JIT cost."""
@@ -484,7 +528,7 @@ class Driver:
                 sys.setprofile(reach)
             try:
                 with contextlib.redirect_stdout(io.StringIO()), contextlib.redirect_stderr(io.StringIO()):
-                    r = fn(arg) if pre else fn()
+                    r = self.guarded(lambda: fn(arg) if pre else fn())
             finally:
                 if reach is not None:
                     sys.setprofile(None)
@@ -501,6 +545,19 @@ class Driver:
         rec["t"] = round(time.time() - t0, 4)
         self.emit(rec)
         return rec
+
+    def guarded(self, f):
+        """The JIT cache directory is shared with concurrent runs that prune old directories (mc.env._prune); a cache file
+        vanishing under a compilation is an accident of the environment, not an observation: recreate and retry."""
+        for attempt in range(4):
+            try:
+                return f()
+            except OSError as e:
+                cdir = os.environ.get("NUMBA_CACHE_DIR", "")
+                if not cdir or cdir not in str(e) or attempt == 3:
+                    raise
+                os.makedirs(cdir, exist_ok=True)
+                time.sleep(0.2 * (attempt + 1))
 
     def typesig(self, name, args):
         if self.mode == "nojit":
@@ -519,7 +576,7 @@ class Driver:
         self.emit({"id": "meta|programs", "st": "meta", "source": names, "missing_inputs": missing, "stale_inputs": extra,
                    "introspection": None if self.mode == "nojit" else [fn for _, fn in jit_functions_by_introspection()]})
         for mn, name in self.src:
-            if name not in K or not self.mine(name):
+            if name not in K or not self.mine(name) or not self.group_wanted("k|%s|" % name):
                 continue
             f = getattr(self.kmods[mn], name)
             t0 = time.time()
@@ -707,6 +764,12 @@ def arm_entries():
     add("setArbitraryHome", lambda a, x: a.setArbitraryHome(x._tm(x.ref.fk(x.th()) @ tool), x.th()))
     add("restoreOriginalEE", lambda a, x: (a.setArbitraryHome(x._tm(x.ref.fk(x.th()) @ tool), x.th()), a.restoreOriginalEE(), a.FK(x.th()))[2])
     add("getEEPos", lambda a, x: a.getEEPos())
+    add("inverseJacobian", lambda a, x: a.inverseJacobian(x.th()))
+    add("inverseJacobianBody", lambda a, x: a.inverseJacobianBody(x.th()))
+    add("velocityAtJoints", lambda a, x: a.velocityAtJoints(0.1 * WRENCH6, x.th()))
+    add("PDControlToGoalEE", lambda a, x: a.PDControlToGoalEE(x.near(), x.th(), x.th0()))
+    add("thetaProtector", lambda a, x: a.thetaProtector(3.0 * x.th() + 1.0))
+    add("getters", lambda a, x: (a.getScrewList(), a.getBasePos(), a.getLinkDimensions(), a.getGrav()))
     return T
 
 
@@ -767,7 +830,25 @@ def sp_entries():
     add("spinCustom", lambda s, x: s.spinCustom(0.3))
     add("validate", lambda s, x: s.validate())
     add("validate_all", lambda s, x: (setattr(s, "validation_settings", [1, 1, 1, 1]), s.validate())[1])
-    add("getters", lambda s, x: (s.getLens(), s.getTopT(), s.getBottomT(), s.getCurrentLocalTransform(), s.getBottomJoints(), s.getTopJoints()))
+    add("getters", lambda s, x: (s.getLens(), s.getTopT(), s.getBottomT(), s.getCurrentLocalTransform(), s.getBottomJoints(), s.getTopJoints(),
+                                 s.getEEPos(), s.getBasePos(), s.getGrav()))
+    add("jacobian", lambda s, x: s.jacobian())
+    add("jacobianBody", lambda s, x: s.jacobianBody())
+    add("inverseJacobianBody", lambda s, x: s.inverseJacobianBody())
+    add("staticForcesBody", lambda s, x: s.staticForcesBody(Wrench(WRENCH6.copy())))
+    add("staticForcesInvBody", lambda s, x: s.staticForcesInvBody(np.arange(1.0, 7.0)))
+    add("velocityAtEndEffector", lambda s, x: s.velocityAtEndEffector(0.1 * np.arange(1.0, 7.0)))
+    for vn in ("validateLegs", "validateContinuousTranslation", "validateInteriorAngles", "validatePlateRotation"):
+        add(vn, (lambda vn: lambda s, x: getattr(s, vn)(True, True))(vn))
+
+    def rnd(s, x):
+        st = np.random.get_state()
+        np.random.seed(12345)
+        try:
+            return s.randomPos(max_attempts=3)
+        finally:
+            np.random.set_state(st)
+    add("randomPos", rnd)
     return T
 
 
@@ -809,7 +890,9 @@ def tm_entries(P):
     poses = P.POSES[::max(1, len(P.POSES) // (40 if P.tier == "thorough" else 14))]
     out = []
     for i, (w, p, T) in enumerate(poses):
-        w2, p2, T2 = poses[(i * 7 + 3) % len(poses)]
+        w2, _, _ = poses[(i * 7 + 3) % len(poses)]
+        p2 = p + np.array([0.7, -0.4, 0.5]) * (1 + i % 3)       # never coincident with p, never straight above it
+        T2 = P.se3.T_from(w2, p2)
         taa = np.concatenate([p, w])
         taa2 = np.concatenate([p2, w2])
 
@@ -873,6 +956,22 @@ def public_methods(cls):
     return sorted(k for k in dir(cls) if not k.startswith("_") and callable(getattr(cls, k)))
 
 
+ALSO_COVERS = {"arm": {"getters": ["getScrewList", "getBasePos", "getLinkDimensions", "getGrav"], "restoreOriginalEE": ["restoreOriginalEE", "setArbitraryHome"]},
+               "sp": {"getters": ["getLens", "getTopT", "getBottomT", "getCurrentLocalTransform", "getBottomJoints", "getTopJoints", "getEEPos",
+                                  "getBasePos", "getGrav"]}}
+SETUP_ONLY = {"arm": ["setOrigins", "setMassProperties", "setVisColProperties", "setJointProperties", "initialize", "setNames"],
+              "sp": ["setMasses", "setCOG", "setDrawingParameters"]}      # executed while the objects are built, reach no kernel of their own
+
+
+def covered_methods(kind, table):
+    out = set(SETUP_ONLY[kind])
+    for name, _, _ in table:
+        out.add(name)
+        out.add(name.split("_")[0])
+        out.update(ALSO_COVERS[kind].get(name, []))
+    return out
+
+
 def run_entries(d):
     from checks import armlib
     P = Pal(d.tier, d.seed)
@@ -888,10 +987,11 @@ def run_entries(d):
     table = arm_entries()
     from basic_robotics.kinematics import Arm, SP
     d.emit({"id": "meta|entries", "st": "meta", "arm_table": [n for n, _, _ in table], "sp_table": [n for n, _, _ in sp_entries()],
-            "arm_public": public_methods(Arm), "sp_public": public_methods(SP)})
+            "arm_uncovered": [k for k in public_methods(Arm) if k not in covered_methods("arm", table)],
+            "sp_uncovered": [k for k in public_methods(SP) if k not in covered_methods("sp", sp_entries())]})
     for an in names:
         t0 = time.time()
-        if d.only is not None and not any(c.startswith("e|arm:%s|" % an) for c in d.only):
+        if not d.group_wanted("e|arm:%s|" % an):
             continue
         with armlib.quiet():
             pristine, ref = armlib.build(an, d.seed)
@@ -918,7 +1018,7 @@ def run_entries(d):
     for sn in ("std", "small"):
         for bn in SP_BASES:
             t0 = time.time()
-            if d.only is not None and not any(c.startswith("e|sp:%s@%s|" % (sn, bn)) for c in d.only):
+            if not d.group_wanted("e|sp:%s@%s|" % (sn, bn)):
                 continue
             with armlib.quiet():
                 pristine = build_sp(sn, bn)
@@ -954,8 +1054,15 @@ def main(argv=None):
     if here not in sys.path:
         sys.path.insert(0, here)
     from mc import env
-    env.setup(a.mode)
+    os.environ["VERIF_NO_JIT_CACHE"] = "1"          # set the environment up first, import the library only once the cache is tolerant
+    try:
+        env.setup(a.mode)
+    finally:
+        del os.environ["VERIF_NO_JIT_CACHE"]
     import numba
+    if a.mode != "nojit":
+        tolerant_jit_cache()
+    env._cache_jit()
     want = {"jit": (0, 0), "boundscheck": (1, 0), "nojit": (0, 1)}[a.mode]
     got = (int(bool(numba.config.BOUNDSCHECK)), int(bool(numba.config.DISABLE_JIT)))
     if got != want:
